@@ -29,7 +29,7 @@ def reference_runs(ctx, casedir, nshards, tag, timeout=1700, workers=None):
         if not cases.strip():
             continue
         r = ctx.tlc_design("vm/VMRun", "cfg/VMRun.cfg", files={"cases.ndjson": cases, "ctxs.ndjson": ctxs},
-                           timeout=timeout, workers=workers, tag="%s-shard%d" % (tag, k))
+                           timeout=timeout, workers=workers or 8, tag="%s-shard%d" % (tag, k))
         n = cases.count("\n")
         if r.nexports != n:
             raise Infra("VMRun exported %d reference executions for %d cases (%s)" % (r.nexports, n, tag))
